@@ -669,6 +669,10 @@ class Unit:
                 raise UnitError('%s: %s' % (self.name, e))
             lowered = self._lower(it, text, bo)
             woven = self._weave(it, seg, lowered, first_line, kf_on)
+            if seg in isolate and it.kind == 'slice':
+                # a slice is a body fragment in a wrapper of its own: nothing refers to it, so it is left out as a whole
+                out.append(Line('// isolated: slice %s not processable, left undecided' % it.name, 'raw'))
+                continue
             if seg in isolate or it.drop_body:
                 res = [] if it.drop_body else [Line('#[verifier::external_body] // isolated: body not processable, contract assumed for callers', 'raw')]
                 for l in woven:
